@@ -52,21 +52,21 @@ CONFIGS: Dict[str, Dict[str, List[Dict[str, Any]]]] = {
         ],
     },
     "RubiksCube": {
-        "quick": [_c("default"), _c("n2s3L7", cube_size=2, scrambles=3, time_limit=7), _c("n2s1L1", cube_size=2, scrambles=1, time_limit=1), _c("mk_partlyL3", make_id="RubiksCube-partly-scrambled-v0", cube_size=3, scrambles=7, time_limit=3)],
+        "quick": [_c("default"), _c("n2s3L7", cube_size=2, scrambles=3, time_limit=7), _c("n2s1L1", cube_size=2, scrambles=1, time_limit=1), _c("mk_partlyL3", make_id="RubiksCube-partly-scrambled-v0", cube_size=3, scrambles=7, time_limit=3), _c("n2s5L41", cube_size=2, scrambles=5, time_limit=41)],
         "thorough": [
             _c("default"), _c("n2s3L7", cube_size=2, scrambles=3, time_limit=7),
             _c("n4s7L20", cube_size=4, scrambles=7, time_limit=20), _c("n5s1L3", cube_size=5, scrambles=1, time_limit=3),
             _c("n3s0L2", cube_size=3, scrambles=0, time_limit=2), _c("n7s100L200", cube_size=7, scrambles=100, time_limit=200),
             _c("n6s2L1", cube_size=6, scrambles=2, time_limit=1), _c("n2s1L1", cube_size=2, scrambles=1, time_limit=1),
-            _c("n3s2L2", cube_size=3, scrambles=2, time_limit=2), _c("mk_partlyL3", make_id="RubiksCube-partly-scrambled-v0", cube_size=3, scrambles=7, time_limit=3), _c("mk_partlyL33", make_id="RubiksCube-partly-scrambled-v0", cube_size=3, scrambles=7, time_limit=33), _c("mk_L2", make_id="RubiksCube-v0", time_limit=2), _c("cu_pyreward", custom="pyreward", time_limit=6, props=["C01", "C02", "C03"]), _c("n2s2L5np", cube_size=2, scrambles=2, time_limit=5, tl_type="np.int32")
+            _c("n3s2L2", cube_size=3, scrambles=2, time_limit=2), _c("mk_partlyL3", make_id="RubiksCube-partly-scrambled-v0", cube_size=3, scrambles=7, time_limit=3), _c("mk_partlyL33", make_id="RubiksCube-partly-scrambled-v0", cube_size=3, scrambles=7, time_limit=33), _c("mk_L2", make_id="RubiksCube-v0", time_limit=2), _c("cu_pyreward", custom="pyreward", time_limit=6, props=["C01", "C02", "C03"]), _c("n2s2L5np", cube_size=2, scrambles=2, time_limit=5, tl_type="np.int32"), _c("n2s5L41", cube_size=2, scrambles=5, time_limit=41)
         ],
     },
     "SlidingTilePuzzle": {
-        "quick": [_c("default"), _c("g3m20L7", grid_size=3, moves=20, time_limit=7)],
+        "quick": [_c("default"), _c("g3m20L7", grid_size=3, moves=20, time_limit=7), _c("g3m20L55", grid_size=3, moves=20, time_limit=55)],
         "thorough": [
             _c("default"), _c("g2m5L3", grid_size=2, moves=5, time_limit=3), _c("g3m20L7", grid_size=3, moves=20, time_limit=7),
             _c("g4m50sparse", grid_size=4, moves=50, reward="sparse", time_limit=30), _c("g3m1L2", grid_size=3, moves=1, time_limit=2),
-            _c("g2m0L1", grid_size=2, moves=0, time_limit=1), _c("g3m3sparse", grid_size=3, moves=3, reward="sparse", time_limit=20), _c("mk_L3", make_id="SlidingTilePuzzle-v0", time_limit=3), _c("cu_pyreward", custom="pyreward", time_limit=6, props=["C01", "C02", "C03"]), _c("g3m9L5np", grid_size=3, moves=9, time_limit=5, tl_type="np.int64")
+            _c("g2m0L1", grid_size=2, moves=0, time_limit=1), _c("g3m3sparse", grid_size=3, moves=3, reward="sparse", time_limit=20), _c("mk_L3", make_id="SlidingTilePuzzle-v0", time_limit=3), _c("cu_pyreward", custom="pyreward", time_limit=6, props=["C01", "C02", "C03"]), _c("g3m9L5np", grid_size=3, moves=9, time_limit=5, tl_type="np.int64"), _c("g3m20L55", grid_size=3, moves=20, time_limit=55)
         ],
     },
     "Sudoku": {
@@ -123,30 +123,30 @@ CONFIGS: Dict[str, Dict[str, List[Dict[str, Any]]]] = {
         "thorough": [
             _c("default"), _c("r4c4L3", rows=4, cols=4, time_limit=3), _c("r6c5L3", rows=6, cols=5, time_limit=3), _c("r6c5L7", rows=6, cols=5, time_limit=7),
             _c("r5c12L30", rows=5, cols=12, time_limit=30), _c("r10c6L2", rows=10, cols=6, time_limit=2),
-            _c("r7c4L1", rows=7, cols=4, time_limit=1), _c("r5c8L12", rows=5, cols=8, time_limit=12), _c("mk_L4", make_id="Tetris-v0", time_limit=4), _c("r6c5L4np", rows=6, cols=5, time_limit=4, tl_type="np.int64")
+            _c("r7c4L1", rows=7, cols=4, time_limit=1), _c("r5c8L12", rows=5, cols=8, time_limit=12), _c("mk_L4", make_id="Tetris-v0", time_limit=4), _c("r6c5L4np", rows=6, cols=5, time_limit=4, tl_type="np.int64"), _c("r10c10L41", rows=10, cols=10, time_limit=41)
         ],
     },
     "Cleaner": {
         "quick": [_c("default"), _c("r5c11a2L7", rows=5, cols=11, agents=2, time_limit=7), _c("r4c7a1", rows=4, cols=7, agents=1), _c("r7c4a2", rows=7, cols=4, agents=2),
-                  _c("r6c5a2pint", rows=6, cols=5, agents=2, penalty=1), _c("r5c6a2p0", rows=5, cols=6, agents=2, penalty=0.0), _c("r5c6a2L5np", rows=5, cols=6, agents=2, time_limit=5, tl_type="np.int32")],
+                  _c("r6c5a2pint", rows=6, cols=5, agents=2, penalty=1), _c("r5c6a2p0", rows=5, cols=6, agents=2, penalty=0.0), _c("r5c6a2L5np", rows=5, cols=6, agents=2, time_limit=5, tl_type="np.int32"), _c("r5c6a2L47", rows=5, cols=6, agents=2, time_limit=47)],
         "thorough": [
             _c("default"), _c("r5c5a1", rows=5, cols=5, agents=1), _c("r5c11a2L7", rows=5, cols=11, agents=2, time_limit=7),
             _c("r11c5a3p0", rows=11, cols=5, agents=3, penalty=0.0), _c("r3c3a4L3", rows=3, cols=3, agents=4, time_limit=3),
             _c("r7c9a2L2", rows=7, cols=9, agents=2, time_limit=2), _c("r9c7a2L1", rows=9, cols=7, agents=2, time_limit=1),
             _c("r5c11a2", rows=5, cols=11, agents=2), _c("r4c7a1", rows=4, cols=7, agents=1), _c("r7c4a2", rows=7, cols=4, agents=2),
-            _c("r6c5a2pint", rows=6, cols=5, agents=2, penalty=1), _c("r5c6a2p0", rows=5, cols=6, agents=2, penalty=0.0), _c("mk_L5", make_id="Cleaner-v0", time_limit=5), _c("r5c6a2L5np", rows=5, cols=6, agents=2, time_limit=5, tl_type="np.int32")
+            _c("r6c5a2pint", rows=6, cols=5, agents=2, penalty=1), _c("r5c6a2p0", rows=5, cols=6, agents=2, penalty=0.0), _c("mk_L5", make_id="Cleaner-v0", time_limit=5), _c("r5c6a2L5np", rows=5, cols=6, agents=2, time_limit=5, tl_type="np.int32"), _c("r5c6a2L47", rows=5, cols=6, agents=2, time_limit=47)
         ],
     },
     "Connector": {
         "quick": [_c("default"), _c("u5a4L7", gen="uniform", grid_size=5, agents=4, time_limit=7),
                   _c("u5a4rwL20", gen="uniform", grid_size=5, agents=4, time_limit=20, reward_coeffs=[2.0, -0.5]),
-                  _c("w5a3rwintL15", grid_size=5, agents=3, time_limit=15, reward_coeffs=[3, -1])],
+                  _c("w5a3rwintL15", grid_size=5, agents=3, time_limit=15, reward_coeffs=[3, -1]), _c("u5a3L41", gen="uniform", grid_size=5, agents=3, time_limit=41)],
         "thorough": [
             _c("default"), _c("w3a1L3", grid_size=3, agents=1, time_limit=3), _c("u5a4L7", gen="uniform", grid_size=5, agents=4, time_limit=7),
             _c("w5a8L20", grid_size=5, agents=8, time_limit=20), _c("u4a3L2", gen="uniform", grid_size=4, agents=3, time_limit=2),
             _c("w6a4L1", grid_size=6, agents=4, time_limit=1), _c("u6a4", gen="uniform", grid_size=6, agents=4),
             _c("u5a4rwL20", gen="uniform", grid_size=5, agents=4, time_limit=20, reward_coeffs=[2.0, -0.5]),
-            _c("w5a3rwintL15", grid_size=5, agents=3, time_limit=15, reward_coeffs=[3, -1]), _c("mk_L4", make_id="Connector-v2", time_limit=4), _c("u5a3L6np", gen="uniform", grid_size=5, agents=3, time_limit=6, tl_type="np.int64")
+            _c("w5a3rwintL15", grid_size=5, agents=3, time_limit=15, reward_coeffs=[3, -1]), _c("mk_L4", make_id="Connector-v2", time_limit=4), _c("u5a3L6np", gen="uniform", grid_size=5, agents=3, time_limit=6, tl_type="np.int64"), _c("u5a3L41", gen="uniform", grid_size=5, agents=3, time_limit=41), _c("u5a3L97", gen="uniform", grid_size=5, agents=3, time_limit=97), _c("w5a3L61", grid_size=5, agents=3, time_limit=61)
         ],
     },
     "CVRP": {
@@ -160,7 +160,7 @@ CONFIGS: Dict[str, Dict[str, List[Dict[str, Any]]]] = {
     "LevelBasedForaging": {
         "quick": [_c("default"), _c("g6a3f2v2gridL7", grid_size=6, agents=3, food=2, fov=2, grid_obs=True, time_limit=7),
                   _c("g6a3f2v1L20", grid_size=6, agents=3, food=2, fov=1, time_limit=20),
-                  _c("g6a2f2v6rawpenintL15", grid_size=6, agents=2, food=2, fov=6, normalize=False, penalty=1, time_limit=15), _c("g8a2f6v8L30", grid_size=8, agents=2, food=6, fov=8, time_limit=30, c10_keys={"quick": 3000, "thorough": 12000}), _c("g10a3f12v3L30", grid_size=10, agents=3, food=12, fov=3, time_limit=30), _c("g8a3f2v8ml3L12", grid_size=8, agents=3, food=2, fov=8, max_level=3, time_limit=12), _c("g8a3f3v3ml4coopL12", grid_size=8, agents=3, food=3, fov=3, max_level=4, force_coop=True, time_limit=12), _c("g6a2f2v2gridL40", grid_size=6, agents=2, food=2, fov=2, grid_obs=True, time_limit=40)],
+                  _c("g6a2f2v6rawpenintL15", grid_size=6, agents=2, food=2, fov=6, normalize=False, penalty=1, time_limit=15), _c("g8a2f6v8L30", grid_size=8, agents=2, food=6, fov=8, time_limit=30, c10_keys={"quick": 3000, "thorough": 12000}), _c("g10a3f12v3L30", grid_size=10, agents=3, food=12, fov=3, time_limit=30), _c("g8a3f2v8ml3L12", grid_size=8, agents=3, food=2, fov=8, max_level=3, time_limit=12), _c("g8a3f3v3ml4coopL12", grid_size=8, agents=3, food=3, fov=3, max_level=4, force_coop=True, time_limit=12), _c("g6a2f2v2gridL40", grid_size=6, agents=2, food=2, fov=2, grid_obs=True, time_limit=40), _c("g6a2f2v6L41", grid_size=6, agents=2, food=2, fov=6, time_limit=41)],
         "thorough": [
             _c("default"), _c("g5a1f1v1L3", grid_size=5, agents=1, food=1, fov=1, time_limit=3),
             _c("g6a3f2v2gridL7", grid_size=6, agents=3, food=2, fov=2, grid_obs=True, time_limit=7),
@@ -172,15 +172,15 @@ CONFIGS: Dict[str, Dict[str, List[Dict[str, Any]]]] = {
             _c("g6a3f2v1L20", grid_size=6, agents=3, food=2, fov=1, time_limit=20),
             # constructor arguments given as Python ints where floats are documented (dtype promotion paths)
             _c("g6a2f2v6rawpenintL15", grid_size=6, agents=2, food=2, fov=6, normalize=False, penalty=1, time_limit=15),
-            _c("g6a2f2v2gridpenint", grid_size=6, agents=2, food=2, fov=2, grid_obs=True, penalty=2, time_limit=25), _c("mk_L5", make_id="LevelBasedForaging-v0", time_limit=5), _c("g8a2f6v8L30", grid_size=8, agents=2, food=6, fov=8, time_limit=30, c10_keys={"quick": 3000, "thorough": 12000}), _c("g10a3f12v3L30", grid_size=10, agents=3, food=12, fov=3, time_limit=30), _c("g6a2f2v6L6np", grid_size=6, agents=2, food=2, fov=6, time_limit=6, tl_type="np.int64"), _c("g8a3f2v8ml3L12", grid_size=8, agents=3, food=2, fov=8, max_level=3, time_limit=12), _c("g8a3f3v3ml4coopL12", grid_size=8, agents=3, food=3, fov=3, max_level=4, force_coop=True, time_limit=12), _c("g6a2f2v2gridL40", grid_size=6, agents=2, food=2, fov=2, grid_obs=True, time_limit=40)
+            _c("g6a2f2v2gridpenint", grid_size=6, agents=2, food=2, fov=2, grid_obs=True, penalty=2, time_limit=25), _c("mk_L5", make_id="LevelBasedForaging-v0", time_limit=5), _c("g8a2f6v8L30", grid_size=8, agents=2, food=6, fov=8, time_limit=30, c10_keys={"quick": 3000, "thorough": 12000}), _c("g10a3f12v3L30", grid_size=10, agents=3, food=12, fov=3, time_limit=30), _c("g6a2f2v6L6np", grid_size=6, agents=2, food=2, fov=6, time_limit=6, tl_type="np.int64"), _c("g8a3f2v8ml3L12", grid_size=8, agents=3, food=2, fov=8, max_level=3, time_limit=12), _c("g8a3f3v3ml4coopL12", grid_size=8, agents=3, food=3, fov=3, max_level=4, force_coop=True, time_limit=12), _c("g6a2f2v2gridL40", grid_size=6, agents=2, food=2, fov=2, grid_obs=True, time_limit=40), _c("g6a2f2v6L41", grid_size=6, agents=2, food=2, fov=6, time_limit=41)
         ],
     },
     "Maze": {
-        "quick": [_c("default"), _c("r5c9L7", rows=5, cols=9, time_limit=7), _c("r4c7", rows=4, cols=7), _c("r7c4", rows=7, cols=4), _c("mk_L4", make_id="Maze-v0", time_limit=4), _c("r5c6L6np", rows=5, cols=6, time_limit=6, tl_type="np.int64")],
+        "quick": [_c("default"), _c("r5c9L7", rows=5, cols=9, time_limit=7), _c("r4c7", rows=4, cols=7), _c("r7c4", rows=7, cols=4), _c("mk_L4", make_id="Maze-v0", time_limit=4), _c("r5c6L6np", rows=5, cols=6, time_limit=6, tl_type="np.int64"), _c("r5c6L47", rows=5, cols=6, time_limit=47)],
         "thorough": [
             _c("default"), _c("r3c3", rows=3, cols=3), _c("r5c9L7", rows=5, cols=9, time_limit=7), _c("r9c4L3", rows=9, cols=4, time_limit=3),
             _c("toy", gen="toy"), _c("r5c9", rows=5, cols=9), _c("r7c6L2", rows=7, cols=6, time_limit=2), _c("r6c7L1", rows=6, cols=7, time_limit=1),
-            _c("r4c7", rows=4, cols=7), _c("r7c4", rows=7, cols=4), _c("mk_L4", make_id="Maze-v0", time_limit=4), _c("r5c6L6np", rows=5, cols=6, time_limit=6, tl_type="np.int64")
+            _c("r4c7", rows=4, cols=7), _c("r7c4", rows=7, cols=4), _c("mk_L4", make_id="Maze-v0", time_limit=4), _c("r5c6L6np", rows=5, cols=6, time_limit=6, tl_type="np.int64"), _c("r5c6L47", rows=5, cols=6, time_limit=47)
         ],
     },
     # MMST: the class docstring documents `connected_nodes` as (num_agents, time_limit); a user generator whose `max_step` buffer
@@ -192,7 +192,7 @@ CONFIGS: Dict[str, Dict[str, List[Dict[str, Any]]]] = {
                   _c("n13e20d5a2p3", nodes=13, edges=20, degree=5, agents=2, per_agent=3, time_limit=30),
                   # small dense graphs with 3 and 4 agents: several agents are often adjacent to the same node
                   _c("n10e16d5a3p2", nodes=10, edges=16, degree=5, agents=3, per_agent=2, time_limit=20),
-                  _c("n12e22d6a4p2", nodes=12, edges=22, degree=6, agents=4, per_agent=2, time_limit=20), _c("n12e18d5a2p3ms9L14", nodes=12, edges=18, degree=5, agents=2, per_agent=3, time_limit=14, max_step=9, props=["C01", "C03", "C11"])],
+                  _c("n12e22d6a4p2", nodes=12, edges=22, degree=6, agents=4, per_agent=2, time_limit=20), _c("n12e18d5a2p3ms9L14", nodes=12, edges=18, degree=5, agents=2, per_agent=3, time_limit=14, max_step=9, props=["C01", "C03", "C11"]), _c("n12e18d5a2p3L41", nodes=12, edges=18, degree=5, agents=2, per_agent=3, time_limit=41)],
         "thorough": [
             _c("default"), _c("n12e18d4a2p3L7", nodes=12, edges=18, degree=4, agents=2, per_agent=3, time_limit=7),
             _c("n20e30d5a3p3L3", nodes=20, edges=30, degree=5, agents=3, per_agent=3, time_limit=3),
@@ -202,7 +202,7 @@ CONFIGS: Dict[str, Dict[str, List[Dict[str, Any]]]] = {
             _c("n20e30d3a3p3", nodes=20, edges=30, degree=3, agents=3, per_agent=3, time_limit=30),
             _c("n13e20d5a2p3", nodes=13, edges=20, degree=5, agents=2, per_agent=3, time_limit=30),
             _c("n10e16d5a3p2", nodes=10, edges=16, degree=5, agents=3, per_agent=2, time_limit=20),
-            _c("n12e22d6a4p2", nodes=12, edges=22, degree=6, agents=4, per_agent=2, time_limit=20), _c("mk_L6", make_id="MMST-v0", time_limit=6), _c("n12e18d5a2p3ms9L14", nodes=12, edges=18, degree=5, agents=2, per_agent=3, time_limit=14, max_step=9, props=["C01", "C03", "C11"]), _c("n12e18d5a2p3ms30L6", nodes=12, edges=18, degree=5, agents=2, per_agent=3, time_limit=6, max_step=30), _c("n12e18d5a2p3L6np", nodes=12, edges=18, degree=5, agents=2, per_agent=3, time_limit=6, tl_type="np.int64")
+            _c("n12e22d6a4p2", nodes=12, edges=22, degree=6, agents=4, per_agent=2, time_limit=20), _c("mk_L6", make_id="MMST-v0", time_limit=6), _c("n12e18d5a2p3ms9L14", nodes=12, edges=18, degree=5, agents=2, per_agent=3, time_limit=14, max_step=9, props=["C01", "C03", "C11"]), _c("n12e18d5a2p3ms30L6", nodes=12, edges=18, degree=5, agents=2, per_agent=3, time_limit=6, max_step=30), _c("n12e18d5a2p3L6np", nodes=12, edges=18, degree=5, agents=2, per_agent=3, time_limit=6, tl_type="np.int64"), _c("n12e18d5a2p3L41", nodes=12, edges=18, degree=5, agents=2, per_agent=3, time_limit=41)
         ],
     },
     "MultiCVRP": {
@@ -215,12 +215,12 @@ CONFIGS: Dict[str, Dict[str, List[Dict[str, Any]]]] = {
     "PacMan": {
         "quick": [_c("default"), _c("L7", time_limit=7), _c("small12x13L40", maze="small", time_limit=40), _c("small12x13L400", maze="small", time_limit=400)],
         "thorough": [_c("default"), _c("L1", time_limit=1), _c("L2", time_limit=2), _c("L3", time_limit=3), _c("L7", time_limit=7), _c("L60", time_limit=60),
-                     _c("small12x13L40", maze="small", time_limit=40), _c("small12x13L3", maze="small", time_limit=3), _c("small12x13L400", maze="small", time_limit=400), _c("mk_L5", make_id="PacMan-v1", time_limit=5), _c("L6np", time_limit=6, tl_type="np.int64")],
+                     _c("small12x13L40", maze="small", time_limit=40), _c("small12x13L3", maze="small", time_limit=3), _c("small12x13L400", maze="small", time_limit=400), _c("mk_L5", make_id="PacMan-v1", time_limit=5), _c("L6np", time_limit=6, tl_type="np.int64"), _c("L41", time_limit=41)],
     },
     "RobotWarehouse": {
         "quick": [_c("default"), _c("s2x1h3a2r1q2L7", shelf_rows=2, shelf_cols=1, height=3, agents=2, sensor=1, queue=2, time_limit=7),
                   # a floor that is much wider than tall (5 x 16) with many agents
-                  _c("s1x5h2a4r1q3L9", shelf_rows=1, shelf_cols=5, height=2, agents=4, sensor=1, queue=3, time_limit=9)],
+                  _c("s1x5h2a4r1q3L9", shelf_rows=1, shelf_cols=5, height=2, agents=4, sensor=1, queue=3, time_limit=9), _c("s2x1h3a2r1q2L55", shelf_rows=2, shelf_cols=1, height=3, agents=2, sensor=1, queue=2, time_limit=55)],
         "thorough": [
             _c("default"), _c("s2x1h3a2r1q2L7", shelf_rows=2, shelf_cols=1, height=3, agents=2, sensor=1, queue=2, time_limit=7),
             _c("s1x3h3a2r1q2L3", shelf_rows=1, shelf_cols=3, height=3, agents=2, sensor=1, queue=2, time_limit=3),
@@ -228,26 +228,26 @@ CONFIGS: Dict[str, Dict[str, List[Dict[str, Any]]]] = {
             _c("s2x1h3a2r1q2L2", shelf_rows=2, shelf_cols=1, height=3, agents=2, sensor=1, queue=2, time_limit=2),
             _c("s1x3h3a1r1q2L1", shelf_rows=1, shelf_cols=3, height=3, agents=1, sensor=1, queue=2, time_limit=1),
             _c("s1x5h2a4r1q3L9", shelf_rows=1, shelf_cols=5, height=2, agents=4, sensor=1, queue=3, time_limit=9),
-            _c("s1x7h1a5r2q4", shelf_rows=1, shelf_cols=7, height=1, agents=5, sensor=2, queue=4, time_limit=40), _c("mk_L4", make_id="RobotWarehouse-v0", time_limit=4), _c("s2x1h3a2r1q2L6np", shelf_rows=2, shelf_cols=1, height=3, agents=2, sensor=1, queue=2, time_limit=6, tl_type="np.int64")
+            _c("s1x7h1a5r2q4", shelf_rows=1, shelf_cols=7, height=1, agents=5, sensor=2, queue=4, time_limit=40), _c("mk_L4", make_id="RobotWarehouse-v0", time_limit=4), _c("s2x1h3a2r1q2L6np", shelf_rows=2, shelf_cols=1, height=3, agents=2, sensor=1, queue=2, time_limit=6, tl_type="np.int64"), _c("s2x1h3a2r1q2L55", shelf_rows=2, shelf_cols=1, height=3, agents=2, sensor=1, queue=2, time_limit=55)
         ],
     },
     "Snake": {
         "quick": [_c("default"), _c("r3c5L7", rows=3, cols=5, time_limit=7), _c("r3c4L60", rows=3, cols=4, time_limit=60), _c("mk_L5", make_id="Snake-v1", time_limit=5),
-                  _c("r4c4L200", rows=4, cols=4, time_limit=200), _c("r2c3L40", rows=2, cols=3, time_limit=40), _c("r8c17L9500", rows=8, cols=17, time_limit=9500, deep=["complete", 9500]), _c("r4c5L6np", rows=4, cols=5, time_limit=6, tl_type="np.int64")],
+                  _c("r4c4L200", rows=4, cols=4, time_limit=200), _c("r2c3L40", rows=2, cols=3, time_limit=40), _c("r8c17L9500", rows=8, cols=17, time_limit=9500, deep=["complete", 9500]), _c("r4c5L6np", rows=4, cols=5, time_limit=6, tl_type="np.int64"), _c("r6c6L55", rows=6, cols=6, time_limit=55)],
         "thorough": [
             _c("default"), _c("r2c2L3", rows=2, cols=2, time_limit=3), _c("r3c5L7", rows=3, cols=5, time_limit=7),
             _c("r6c4L200", rows=6, cols=4, time_limit=200), _c("r4c6L2", rows=4, cols=6, time_limit=2), _c("r5c3L1", rows=5, cols=3, time_limit=1),
             _c("r3c4L60", rows=3, cols=4, time_limit=60), _c("mk_L5", make_id="Snake-v1", time_limit=5),
-            _c("r4c4L200", rows=4, cols=4, time_limit=200), _c("r2c3L40", rows=2, cols=3, time_limit=40), _c("r5c6L500", rows=5, cols=6, time_limit=500), _c("r8c17L9500", rows=8, cols=17, time_limit=9500, deep=["complete", 9500]), _c("r4c5L6np", rows=4, cols=5, time_limit=6, tl_type="np.int64")
+            _c("r4c4L200", rows=4, cols=4, time_limit=200), _c("r2c3L40", rows=2, cols=3, time_limit=40), _c("r5c6L500", rows=5, cols=6, time_limit=500), _c("r8c17L9500", rows=8, cols=17, time_limit=9500, deep=["complete", 9500]), _c("r4c5L6np", rows=4, cols=5, time_limit=6, tl_type="np.int64"), _c("r6c6L55", rows=6, cols=6, time_limit=55)
         ],
     },
     "Sokoban": {
         # the registered default generator downloads the DeepMind dataset: not explorable offline
-        "quick": [_c("toy", gen="toy"), _c("randL7", gen="harness", border=False, time_limit=7), _c("rand", gen="harness", border=False, time_limit=40)],
+        "quick": [_c("toy", gen="toy"), _c("randL7", gen="harness", border=False, time_limit=7), _c("rand", gen="harness", border=False, time_limit=40), _c("toyL47", gen="toy", time_limit=47)],
         "thorough": [
             _c("toy", gen="toy"), _c("simple", gen="simple"), _c("randL7", gen="harness", border=False, time_limit=7),
             _c("randborder", gen="harness", border=True, time_limit=60), _c("randsparseL3", gen="harness", border=False, reward="sparse", time_limit=3),
-            _c("toyL2", gen="toy", time_limit=2), _c("simpleL1", gen="simple", time_limit=1), _c("rand", gen="harness", border=False, time_limit=40), _c("cu_pyreward", custom="pyreward", time_limit=6, props=["C01", "C02", "C03"]), _c("toyL5np", gen="toy", time_limit=5, tl_type="np.int64")
+            _c("toyL2", gen="toy", time_limit=2), _c("simpleL1", gen="simple", time_limit=1), _c("rand", gen="harness", border=False, time_limit=40), _c("cu_pyreward", custom="pyreward", time_limit=6, props=["C01", "C02", "C03"]), _c("toyL5np", gen="toy", time_limit=5, tl_type="np.int64"), _c("toyL47", gen="toy", time_limit=47)
         ],
     },
     "TSP": {
